@@ -38,6 +38,7 @@ def make(base_name, log, chooser_factory=None, reply_hook=None):
         def _call_solver(self, csp_description):
             ev = {"backend": base_name, "text": csp_description, "reply": None, "error": None, "obj": self}
             log.events.append(ev)
+            self._wire_text = csp_description
             try:
                 reply = ref_sugar.answer(csp_description, self._chooser)
             except ref_sugar.WireError as e:
@@ -46,6 +47,7 @@ def make(base_name, log, chooser_factory=None, reply_hook=None):
             if reply_hook:
                 reply = reply_hook(reply)
             ev["reply"] = reply
+            self._wire_last = (csp_description, reply)
             return reply
 
     StandIn.__name__ = f"StandIn_{base_name}"
